@@ -163,10 +163,11 @@ func (r *FnRun) freshVal(st *State, hint string, t types.Type) Val {
 			return av
 		}
 	case *types.Interface:
-		return &StructVal{T: t, N: []string{"itab", "data"}, F: []Val{
-			st.declare(r.freshName(hint+"_itab"), BV(PtrW, false)),
-			st.declare(r.freshName(hint+"_idata"), BV(PtrW, false)),
-		}}
+		tab := st.declare(r.freshName(hint+"_itab"), BV(PtrW, false))
+		dat := st.declare(r.freshName(hint+"_idata"), BV(PtrW, false))
+		// representation invariant of interface values: a nil type word means the nil interface
+		st.assume(Implies(Eq(tab, BVInt(0, PtrW, false)), Eq(dat, BVInt(0, PtrW, false))), "nil interface has a nil data word")
+		return &StructVal{T: t, N: []string{"itab", "data"}, F: []Val{tab, dat}}
 	case *types.Tuple:
 		tv := &TupleVal{}
 		for i := 0; i < u.Len(); i++ {
